@@ -439,6 +439,16 @@ def c02(rep, tier):
             flds = dict(init['fields'])
             gcor = strip_casts(flds.get('generated_correctly'))
             errs = strip_copies(strip_casts(flds.get('errors')))
+            if gcor is not None and gcor.get('k') == 'ref' and gcor.get('dk') == 'var':
+                # the flag computed into a local first (const bool ok = gs.errors.empty(); ... std::move(gs.errors)): the local's
+                # initialiser counts when nothing is appended to the list between it and the return
+                o_ = M.origin(genf, gcor)
+                gg_ = M.cfg(genf)
+                later = [ev for ev in gg_.calls() if (is_call(ev.e, '::push_back') or is_call(ev.e, 'GenState::err') or is_call(ev.e, 'GenState::verr') or
+                                                      (ev.e.get('callee') or '').startswith(('gen_ast', 'dispatch'))) and o_ is not None and o_.get('sid') in gg_.by_sid and
+                         gg_.can_follow(gg_.by_sid[o_['sid']], ev)]
+                if o_ is not None and o_ is not gcor and not later:
+                    gcor = strip_casts(o_)
             if gcor is not None and gcor.get('k') == 'bin' and gcor['op'] == '==' and strip_casts(gcor['r']).get('v') == 0 and is_call(strip_casts(gcor['l']), '::size'):
                 okr = show(strip_casts(gcor['l'])['obj']) == show(errs)
             elif gcor is not None and is_call(gcor, '::empty'):
@@ -519,6 +529,7 @@ def c02(rep, tier):
     recursion_depth_rule(rep)
     unwritten_token_rule(rep, M, lib)
     uninitialised_locals_rule(rep, M, lib)
+    progress_rule(rep, M, lib)
     # the generator reports errors at its current position; before the first visible node it is the initial one
     genf2 = lib.fn('Theo::gen')
     for e in walk_all_exprs(genf2['body']):
@@ -548,6 +559,51 @@ def c02(rep, tier):
                 else:
                     F.check(okm and okl, inst, 'message has literal text; location from %s' % why,
                             'malformed error record: %s' % ('empty message' if not okm else why), where)
+
+
+def progress_rule(rep, M, lib):
+    """A loop of Theo::parse that runs `while the look-ahead is not the end of input` terminates only if every iteration consumes
+    a token: ParseState::match() always moves on (it stops at the end marker), a grammar function need not consume anything when
+    the token cannot start its construct."""
+    R = rep.rule('C02.r', 'a front-end loop that runs until the end of input consumes a token in every iteration', floor=1)
+    pf = lib.fn('Theo::parse')
+    g = M.cfg(pf)
+    n = 0
+    for st in walk_stmts(pf['body']):
+        if st['k'] not in ('while', 'for', 'do') or st.get('c') is None:
+            continue
+        ctxt = show(st['c'])
+        if 'lookahead' not in ctxt or 'T_EOF' not in ctxt:
+            continue
+        n += 1
+        conds = [nd for nd in g.nodes if nd.kind == 'cond' and nd.stmt is st]
+        consuming = [ev for ev in g.calls() if (ev.e.get('callee') or '').endswith(('ParseState::match', 'ParseState::matchmk', 'ParseState::advance')) and
+                     any(x is ev.e for x in walk_all_exprs(st['body'])) and not ev.conditional]
+        # ... on every path from the loop head back to it
+        ok = False
+        if conds:
+            head = conds[0]
+            cons_nodes = set(ev.node.id for ev in consuming)
+            seen, work, back = set(), [b for b in head.succ if b.kind == 'branch' and b.label is True] or list(head.succ), False
+            body_ids = set(nd.id for nd in g.nodes if any(x is nd.stmt for x in walk_stmts(st['body'])) or
+                           (nd.kind in ('branch', 'cond') and nd.of is not None and any(x is getattr(nd.of, 'stmt', None) for x in walk_stmts(st['body']))))
+            while work:
+                nd = work.pop()
+                if nd.id in seen or nd.id in cons_nodes:
+                    continue
+                seen.add(nd.id)
+                if nd.id == head.id:
+                    back = True
+                    break
+                if nd.id not in body_ids and nd.kind != 'branch':
+                    continue
+                work.extend(nd.succ)
+            ok = not back
+        R.check(ok, 'parse: loop `%s`' % ctxt[:50], 'every path through the body passes ParseState::match (which always moves on, up to the end marker)',
+                'an iteration can come back to the loop test without having consumed a token (only grammar functions are called, and they consume nothing when the token cannot start '
+                'their construct): parse() does not return', '%s:%d' % (rel(lib, pf['file']), st['loc'][0]), witness={'input': 'x0 := 1 END'})
+    if n == 0:
+        R.unknown('parse: loops until end of input', 'no loop over the look-ahead found in Theo::parse')
 
 
 def uninitialised_locals_rule(rep, M, lib):
